@@ -544,6 +544,16 @@ def _install(ch):
             raise PermissionError(errno_mod.EACCES, 'tallysim: %s outside world' % op, os.fspath(path))
         return rel
 
+    def done(real, *a, **kw):
+        """Perform the real operation of the effect just logged; when the operating system refuses it by itself (EEXIST on a
+        link or an exclusive create, ENOTEMPTY, ...) nothing was touched: the log says so, and the oracles do not count the
+        attempt as a write."""
+        try:
+            return real(*a, **kw)
+        except OSError:
+            ch.log({'k': 'effect-failed', 'n': ch.n - 1})
+            raise
+
     def xdev(rs, rd, src, dst):
         # $TMPDIR is another file system than the budget (tmpfs /tmp is the common case) unless the plan says otherwise:
         # rename, replace and link across the boundary fail with EXDEV and change nothing
@@ -555,13 +565,13 @@ def _install(ch):
         rs, rd = guard(src, 'rename'), guard(dst, 'rename')
         xdev(rs, rd, src, dst)
         ch.effect('rename', src=rs, dst=rd)
-        return _real_os['rename'](src, dst, *a, **kw)
+        return done(_real_os['rename'], src, dst, *a, **kw)
 
     def sim_replace(src, dst, *a, **kw):
         rs, rd = guard(src, 'replace'), guard(dst, 'replace')
         xdev(rs, rd, src, dst)
         ch.effect('rename', src=rs, dst=rd)
-        return _real_os['replace'](src, dst, *a, **kw)
+        return done(_real_os['replace'], src, dst, *a, **kw)
 
     def sim_mkdir(path, mode=0o777, *a, **kw):
         rel = ch.rel(path)
@@ -571,17 +581,17 @@ def _install(ch):
             ch.log({'k': 'escape', 'path': os.fspath(path), 'op': 'mkdir'})
             raise PermissionError(errno_mod.EACCES, 'tallysim: mkdir outside world', os.fspath(path))
         ch.effect('mkdir', path=rel)
-        return _real_os['mkdir'](path, mode, *a, **kw)
+        return done(_real_os['mkdir'], path, mode, *a, **kw)
 
     def sim_unlink(path, *a, **kw):
         rel = guard(path, 'unlink')
         ch.effect('unlink', path=rel)
-        return _real_os['unlink'](path, *a, **kw)
+        return done(_real_os['unlink'], path, *a, **kw)
 
     def sim_rmdir(path, *a, **kw):
         rel = guard(path, 'rmdir')
         ch.effect('rmdir', path=rel)
-        return _real_os['rmdir'](path, *a, **kw)
+        return done(_real_os['rmdir'], path, *a, **kw)
 
     rfds = {}        # fds opened for reading under a read-fault plan: fd -> [plan, bytes handed out so far, size]
 
@@ -619,7 +629,7 @@ def _install(ch):
             # exclusive creation of something that exists fails before anything is touched: not an effect, not a fault point
             return _real_os['open'](path, flags, mode, *a, **kw)
         ch.effect('open', path=rel, mode='os.open')
-        fd = _real_os['open'](path, flags, mode, *a, **kw)
+        fd = done(_real_os['open'], path, flags, mode, *a, **kw)
         ch.fdpaths[fd] = (os.fspath(path), rel)
         return fd
 
@@ -685,19 +695,19 @@ def _install(ch):
         rs, rd = guard(src, 'link'), guard(dst, 'link')
         xdev(rs, rd, src, dst)
         ch.effect('link', src=rs, dst=rd)
-        return _real_os['link'](src, dst, *a, **kw)
+        return done(_real_os['link'], src, dst, *a, **kw)
 
     def sim_symlink(src, dst, *a, **kw):
         rd = guard(dst, 'symlink')
         ch.effect('symlink', src=os.fspath(src), dst=rd)
-        return _real_os['symlink'](src, dst, *a, **kw)
+        return done(_real_os['symlink'], src, dst, *a, **kw)
 
     def sim_truncate(path, length):
         if isinstance(path, int):
             return _real_os['truncate'](path, length)
         rel = guard(path, 'truncate')
         ch.effect('truncate', path=rel, size=length)
-        return _real_os['truncate'](path, length)
+        return done(_real_os['truncate'], path, length)
 
     os.open = sim_os_open
     os.read = sim_os_read
@@ -1107,6 +1117,8 @@ def spawn(world, plan, target, cwd='.', ctl_parent=None, timeout=PROC_TIMEOUT_S)
         r.events.append(rec)
         if 'fault' in rec:
             r.fired = True
+        elif rec.get('k') == 'effect-failed':
+            pass        # annotation: the operating system refused effect n by itself (it stays in the trace: it is a step that can also be faulted)
         elif 'n' in rec:
             r.effects.append(rec)
         if rec.get('k') == 'exit':
